@@ -16,7 +16,7 @@ INNER_LIST = ['<<[k |-> "int"]>>', '<<[k |-> "int"], [k |-> "slice"]>>', '<<[k |
               '<<[k |-> "dashref"], [k |-> "int"]>>', '<<[k |-> "parr"], [k |-> "str"]>>',
               '<<[k |-> "slice"], [k |-> "pint"]>>']     # every member already nil-able: the pointerified type is the type itself
 INNER = "{ %s }" % ", ".join(INNER_LIST)
-ALL_LEAF = '{"int","str","dur","time","slice","map","arr","pint","parr","pkmap","mmap"}'
+ALL_LEAF = '{"int","str","dur","time","slice","map","arr","pint","parr","pkmap","mmap","pslice"}'
 ALL_SKIP = '{"dash","dashref","chan","func","unexp"}'
 ALL_STRUCT = '{"struct","pstruct","emb"}'
 
